@@ -208,4 +208,60 @@ theorem las_depend (c : Ctx) (i : Nat) (reqs : List Req) (l : Las)
     obtain ⟨⟨a, k⟩, _, rfl⟩ := hl
     rfl
 
+/-- `lastWriter base pre a` really is the greatest index (counted from `base`) of a transaction in
+    `pre` whose request list lets it modify `a`. -/
+theorem lastWriter_spec' (a : Nat) : ∀ (pre : List Tx) (base : Nat),
+    (∀ k, lastWriter base pre a = some k →
+      ∃ h : k - base < pre.length, base ≤ k ∧ mayWrite (pre[k - base]).reqs a = true ∧
+        ∀ j (hj : j < pre.length), k - base < j → mayWrite (pre[j]).reqs a = false) ∧
+    (lastWriter base pre a = none → ∀ j (hj : j < pre.length), mayWrite (pre[j]).reqs a = false) := by
+  intro pre
+  induction pre with
+  | nil => intro base; simp [lastWriter]
+  | cons t rest ih =>
+    intro base
+    obtain ⟨ih1, ih2⟩ := ih (base + 1)
+    simp only [lastWriter]
+    cases hl : lastWriter (base + 1) rest a with
+    | some k' =>
+      refine ⟨?_, by simp⟩
+      intro k hk
+      simp only [Option.some.injEq] at hk
+      subst hk
+      obtain ⟨h, hb, hm, hafter⟩ := ih1 k' hl
+      have e : k' - base = (k' - (base + 1)) + 1 := by omega
+      refine ⟨by simp only [List.length_cons]; omega, by omega, ?_, ?_⟩
+      · simp only [e, List.getElem_cons_succ]; exact hm
+      · intro j hj hlt
+        cases j with
+        | zero => omega
+        | succ j =>
+          simp only [List.getElem_cons_succ]
+          exact hafter j (by simpa using hj) (by omega)
+    | none =>
+      simp only
+      by_cases hm : mayWrite t.reqs a = true
+      · simp only [hm, if_true]
+        refine ⟨?_, by simp⟩
+        intro k hk
+        simp only [Option.some.injEq] at hk
+        subst hk
+        refine ⟨by simp, Nat.le_refl _, by simpa using hm, ?_⟩
+        intro j hj hlt
+        cases j with
+        | zero => omega
+        | succ j =>
+          simp only [List.getElem_cons_succ]
+          exact ih2 hl j (by simpa using hj)
+      · have hm' : mayWrite t.reqs a = false := by simpa using hm
+        simp only [hm', Bool.false_eq_true, if_false]
+        refine ⟨by simp, ?_⟩
+        intro _ j hj
+        cases j with
+        | zero => simpa using hm'
+        | succ j =>
+          simp only [List.getElem_cons_succ]
+          exact ih2 hl j (by simpa using hj)
+
+
 end Goloop.C09.Proofs
